@@ -282,11 +282,12 @@ pub fn main(a: Args) -> i32 {
         if a.replay.is_none() && it >= 8 && it % 20 == 9 {
             // directed: a list of RELATED patterns (one matches the other's text; `?` where the other has `*`), in either
             // order, with names matched by only one of the two, on both sides: every pattern of the list counts
-            let pairs = [("?.b", "*.b"), ("a?c", "a*c"), ("?", "*"), ("???", "a*c"), ("*.b", "q.b"), ("d/?", "d/*"), ("?.b", "*")];
+            let pairs = [("?.b", "*.b"), ("a?c", "a*c"), ("?", "*"), ("???", "a*c"), ("*.b", "q.b"), ("d/?", "d/*"), ("?.b", "*"), ("?.b", "ün?"), ("??", "?")];
             let (p1, p2) = *r.pick(&pairs);
             excludes = if r.chance(1, 2) { vec![p1.to_string(), p2.to_string()] } else { vec![p2.to_string(), p1.to_string()] };
             src.clear(); dst.clear();
-            for (i, p) in ["q.b", "xy.b", "sub/long.b", "abc", "abbc", "ac", "d/x", "d/xy", "keep", "z"].iter().enumerate() {
+            // (`?` stands for one CHARACTER: names where it has to cover a non-ASCII one)
+            for (i, p) in ["q.b", "xy.b", "sub/long.b", "abc", "abbc", "ac", "d/x", "d/xy", "keep", "z", "é.b", "ünz", "é", "sub/ß.b"].iter().enumerate() {
                 let c = r.pick(&pool[..5]).clone();
                 match (i + it / 20) % 4 {
                     0 => src.push((p.to_string(), c, 1_650_000_000, 0)),
